@@ -208,6 +208,21 @@ pub fn gen_program_x(rng: &mut Rng, nvars: usize, nops: usize, allow_newvar: boo
             ops.push(Op::And(p, f)); // base+14 == p & f
             continue;
         }
+        // asymmetric twins (one step in twelve): `!a . b` followed by `!b . a` for two pool entries
+        // (standard triples that are mirror images of each other but denote different functions)
+        if ops.len() >= 3 && rng.chance(1, 12) {
+            let len = ops.len();
+            let (a, b) = (pick_idx(rng, len), pick_idx(rng, len));
+            let conj = rng.coin();
+            let mk = |x: usize, y: usize| if conj { Op::And(x, y) } else { Op::Or(x, y) };
+            ops.push(Op::Neg(a)); // len
+            ops.push(Op::Neg(b)); // len+1
+            ops.push(mk(len, b));
+            ops.push(mk(len + 1, a));
+            ops.push(mk(b, len));
+            ops.push(mk(a, len + 1));
+            continue;
+        }
         // deep-conditioning pattern (one step in ten, four or more variables): a chain over the
         // first k variables of the order combined with a small function g over the two deepest
         // ones, so that g's node is shared by several parents (through plain and complemented
